@@ -6,7 +6,7 @@
 //!        actors come in pairs per connection: role 0 writer ops[0] = Op(W, total bytes, chunk),
 //!        role 1 reader ops[0] = Op(R, buffer size, 0); datagrams: total = count, chunk = size
 //! netto: cfg[0] = transport 0 UnixStream::pair, 2 TCP, 3 UDP; cfg[1] = 1: the reader is cancelled
-//!        after cfg[2] ns; cfg[3] = k > 0: a successor continues from read k on the shared socket;
+//!        after cfg[2] ns (cfg[4] = k > 0: a few points after read k-1 began); cfg[3] = k > 0: a successor continues from read k on the shared socket;
 //!        actor 0 = reader ops = Op(READ, timeout us (0 = none), 0)...,
 //!        actor 1 = peer ops = Op(SEND_AT, delay us after the matching read began | NEVER, 0)...,
 //!        further pairs = bystander connections (as in net)
@@ -26,6 +26,8 @@ pub const R: u8 = 1;
 pub const READ: u8 = 2;
 pub const SEND_AT: u8 = 3;
 pub const NEVER: u32 = u32::MAX;
+/// scheduler key on which the canceller waits for the begin of a read
+const CANCEL_KEY: usize = 0x4e43;
 
 pub fn opname(op: u8) -> &'static str {
     match op {
@@ -494,6 +496,7 @@ pub fn run_netto(case: &Case) -> Outcome {
                 }
                 let (vc, t0) = sched::now_tick();
                 began[i].store(vc, Ordering::SeqCst);
+                sched::notify(CANCEL_KEY);
                 let r = match (s.as_mut(), u.as_ref()) {
                     (Some(s), _) => s.read(&mut buf),
                     (_, Some(u)) => u.recv_from(&mut buf).map(|x| x.0),
@@ -555,7 +558,7 @@ pub fn run_netto(case: &Case) -> Outcome {
         // when the reader was cancelled the peer must see the end of the stream
         if let Some(s) = s.as_mut() {
             if expect_eof {
-                s.set_read_timeout(Some(Duration::from_secs(5)));
+                s.set_read_timeout(Some(Duration::from_secs(60)));
                 let mut b = [0u8; 8];
                 // end of stream, or a reset if our byte was still unread when the other end was closed
                 eof_seen = match s.read(&mut b) {
@@ -583,7 +586,19 @@ pub fn run_netto(case: &Case) -> Outcome {
         i += 2;
     }
     if cancel_reader {
-        sleep_ns(case.cfg(2).max(0) as u64);
+        if case.cfg(4) > 0 {
+            // aimed cancel: a few schedule points after read cfg[4]-1 has begun, i.e. while it
+            // goes through try-io / yield / subscribe / register-for-cancel
+            let k = (case.cfg(4) as usize - 1).min(first_to - 1);
+            while began[k].load(Ordering::SeqCst) == 0 {
+                if !sched::block(CANCEL_KEY, Some(sched::now_ns() + 5_000_000_000), false) && began[k].load(Ordering::SeqCst) == 0 {
+                    break;
+                }
+            }
+            sleep_ns((case.cfg(2).max(0) as u64) % 6_000);
+        } else {
+            sleep_ns(case.cfg(2).max(0) as u64);
+        }
         if let Some(c) = reader_co {
             unsafe { c.cancel() };
             sched::kick_idle();
@@ -727,7 +742,7 @@ pub fn strategy_net(g: &GenCfg) -> BoxedStrategy<Case> {
                 actors.push(w);
                 actors.push(r);
             }
-            Case { fam: "net".into(), workers, pool, feat, cfg: vec![transport, if transport <= 2 { echo } else { 0 }], actors, sched }
+            Case { fam: "net".into(), workers, pool, feat, cfg: vec![transport, if transport <= 2 { echo } else { 0 }], actors, sched, weak: 0 }
         })
         .boxed()
 }
@@ -735,8 +750,8 @@ pub fn strategy_net(g: &GenCfg) -> BoxedStrategy<Case> {
 pub fn strategy_netto(g: &GenCfg) -> BoxedStrategy<Case> {
     let g2 = g.clone();
     let d = || prop_oneof![3 => (1u32..20).prop_map(|ms| ms * 1000), 2 => 100u32..20_000, 1 => Just(0u32), 1 => (1u32..4).prop_map(|s| s * 1_000_000)];
-    (prop_oneof![3 => Just(0i64), 2 => Just(2i64), 1 => Just(3i64)], prop_oneof![3 => Just(0i64), 1 => Just(1i64)], 0i64..25_000_000, 0u8..2, 0u8..2, prop_oneof![2 => Just(0u8), 1 => 1u8..4])
-        .prop_flat_map(move |(transport, cancel, cdelay, rctx, pctx, succ)| {
+    (prop_oneof![3 => Just(0i64), 2 => Just(2i64), 1 => Just(3i64)], prop_oneof![3 => Just(0i64), 1 => Just(1i64)], 0i64..25_000_000, 0u8..2, 0u8..2, (prop_oneof![2 => Just(0u8), 1 => 1u8..4], prop_oneof![1 => Just(0u8), 1 => 1u8..4]))
+        .prop_flat_map(move |(transport, cancel, cdelay, rctx, pctx, (succ, aim))| {
             let op = d().prop_flat_map(|t| {
                 // the peer sends never / early / around the deadline / late
                 let e = if t == 0 {
@@ -749,9 +764,9 @@ pub fn strategy_netto(g: &GenCfg) -> BoxedStrategy<Case> {
             let by = (0u8..2, 0u8..2, 0u32..40_000, 1u32..8_192, 1u32..8_192).prop_map(|(wc, rc, total, chunk, buf)| {
                 (Actor { ctx: wc, role: 0, ops: vec![Op(W, total, chunk.max(total / 100 + 1))] }, Actor { ctx: rc, role: 1, ops: vec![Op(R, buf.max(total / 100 + 1), 0)] })
             });
-            (Just((transport, cancel, cdelay, rctx, pctx, succ)), proptest::collection::vec(op, 1..=4), proptest::collection::vec(by, 0..=2), gen::config(&g2), prop_oneof![3 => gen::schedule(&g2, false), 1 => gen::schedule(&g2, true)])
+            (Just((transport, cancel, cdelay, rctx, pctx, succ, aim)), proptest::collection::vec(op, 1..=4), proptest::collection::vec(by, 0..=2), gen::config(&g2), prop_oneof![3 => gen::schedule(&g2, false), 1 => gen::schedule(&g2, true)])
         })
-        .prop_map(|((transport, cancel, cdelay, rctx, pctx, succ), ops, bys, (workers, pool, feat), sched)| {
+        .prop_map(|((transport, cancel, cdelay, rctx, pctx, succ, aim), ops, bys, (workers, pool, feat), sched)| {
             let mut reads = vec![];
             let mut sends = vec![];
             for (t, e) in ops {
@@ -773,7 +788,7 @@ pub fn strategy_netto(g: &GenCfg) -> BoxedStrategy<Case> {
                 actors.push(w);
                 actors.push(r);
             }
-            Case { fam: "netto".into(), workers, pool, feat, cfg: vec![transport, cancel, cdelay, succ as i64], actors, sched }
+            Case { fam: "netto".into(), workers, pool, feat, cfg: vec![transport, cancel, cdelay, succ as i64, if cancel == 1 { aim as i64 } else { 0 }], actors, sched, weak: 0 }
         })
         .boxed()
 }
